@@ -93,15 +93,27 @@ def reset(snap=None):
 
 
 def run_history(h, fresh, acc, states, snap=None, label='history'):
+    cwd0 = os.getcwd()
+    try:
+        os.chdir(common.REPO)           # histories start in the repository directory (where the relative names exist as such)
+        return _run_history(h, fresh, acc, states, snap, label)
+    finally:
+        os.chdir(cwd0)
+
+
+def _run_history(h, fresh, acc, states, snap=None, label='history'):
     G = setup()
     reset(snap)
     for i, call in enumerate(h):
+        if call[0] == 'cd':                  # the caller changes its working directory between two calls
+            os.chdir(call[1])
+            continue
         acc.n += 1
         got = hist.execute(G['U'], G['js'], call)
         states.add(hist.cache_state(G['U']))
         want = fresh[tuple(call)]
         if got != want:
-            earlier = [c for c in h[:i] if key_of(c) == key_of(call)]
+            earlier = [c for c in h[:i] if c[0] != 'cd' and key_of(c) == key_of(call)]
             kind = 'after-same-key-call' if earlier else 'after-other-calls'
             acc.bad('%s:%s:%s-instead-of-%s' % (call[0], kind, '-'.join(map(str, got)), '-'.join(map(str, want))),
                     dict(history=[list(c) for c in h[:i + 1]], label=label),
@@ -231,6 +243,11 @@ def run(tier):
     if tier == 'quick':
         xp = [h for h in xp if not (h[0][3] or h[1][3])]
     go('ordered pairs with a mismatched document/schema call', work, [('pair', xp[i::64]) for i in range(64)])
+    # ---- a change of working directory between two calls (every fresh outcome was shown above to be the same from both directories)
+    cdp = [[a, ('cd', '/'), b] for a, b in pairs if not (a[3] or b[3])] + [[('cd', '/'), a, ('cd', common.REPO), b] for a, b in pairs if not (a[3] or b[3])]
+    if tier == 'quick':
+        cdp = [h for h in cdp if h[-1][0] != h[0][0] or h[-1][0] == 'sv' or h[-1][1:3] != [c for c in h if c[0] != 'cd'][0][1:3]][::2]
+    go('ordered pairs with a change of working directory in between', work, [('pair-chdir', cdp[i::64]) for i in range(64)])
     # ---- all triples over the reduced alphabet (state kept outside the two result caches shows only in such mixed histories)
     triples = [list(t) for t in itertools.product(R, repeat=3)]
     go('all triples over the reduced alphabet of %d calls' % len(R), work, [('triple', triples[i::64]) for i in range(64)])
